@@ -7,6 +7,7 @@ import ChythonModel.Proofs.C15Rxn
 import ChythonModel.Proofs.C15Dict
 import ChythonModel.Proofs.C15Radicals
 import ChythonModel.Proofs.C15Mapping
+import ChythonModel.Proofs.C15Union
 import ChythonModel.Model.C15CgrTokens
 import ChythonModel.Model.C15Hash
 import ChythonModel.Model.C15Read
@@ -585,5 +586,69 @@ example :
     (postprocessRxn true true [[1, 2, 9], [5]] [[1, 2, 5]] []).toOption = some ⟨[[1, 2, 4], [3]], [[1, 2, 3]], []⟩ ∧
     (postprocessRxn false false [[1, 1]] [[1, 2]] []).toOption = none := by
   decide
+
+/-! ## part 11 — renumbering when numberings collide: `Graph.union(remap=True)` renumbers relative to `max`
+
+`union` / `unionAll` / `rxnCompose` are the functions of Model/C15Compose.lean the driver runs (ops `union`, `rxn`). -/
+
+/-- **union_equivariant.** For every pair of well-formed graphs — disjoint, partly overlapping or identical numberings —
+    and every injective renumbering `f` of both: `f a | f b` is `a | b` renumbered by the induced map `inducedRen f a b`
+    (`f` on the numbers of `a`; with a collision the block `max(a)+1 …` goes to the block `max(f a)+1 …`), which agrees
+    with `f` on the left operand and is injective on the atoms of the union. -/
+theorem union_equivariant (f : Nat → Nat) (hf : Function.Injective f) (a b : Mol) (wa : a.WF = true) (wb : b.WF = true) :
+    union (rename f a) (rename f b) = rename (inducedRen f a b) (union a b) ∧
+    (∀ n ∈ a.ids, inducedRen f a b n = f n) ∧
+    (∀ x ∈ (union a b).ids, ∀ y ∈ (union a b).ids, inducedRen f a b x = inducedRen f a b y → x = y) :=
+  ⟨union_rename f hf a b (nbrClosed_of_wfp a (wfp_of_WF a wa)) (nbrClosed_of_wfp b (wfp_of_WF b wb)),
+   inducedRen_left f a b, inducedRen_injOn f hf a b⟩
+
+/-- non-trivial instance (evaluated): C1–C2 | C2–C3 with `n ↦ 10 n`: the right operand becomes 3, 4 before and 21, 22
+    after the renumbering -/
+example :
+    let a : Mol := ⟨[(1, {z := 6}), (2, {z := 6})], [(1, [(2, {order := 1})]), (2, [(1, {order := 1})])]⟩
+    let b : Mol := ⟨[(2, {z := 6}), (3, {z := 8})], [(2, [(3, {order := 2})]), (3, [(2, {order := 2})])]⟩
+    a.WF = true ∧ b.WF = true ∧ (union a b).ids = [1, 2, 3, 4] ∧
+    (union (rename (· * 10) a) (rename (· * 10) b)).ids = [10, 20, 21, 22] ∧
+    (union a b).ids.map (inducedRen (· * 10) a b) = [10, 20, 21, 22] := by
+  decide
+
+/-- Full statement at reaction level: renumbering all molecules of a reaction renumbers its condensed graph (by some map). -/
+def RxnComposeEquivariantFull : Prop :=
+  ∀ (f : Nat → Nat), Function.Injective f → ∀ (R A P : List Mol), (∀ m ∈ R ++ A ++ P, m.WF = true) →
+    ∃ g : Nat → Nat, rxnCompose (R.map (rename f)) (A.map (rename f)) (P.map (rename f)) =
+      mapExcept (renameCGR g) (rxnCompose R A P)
+
+/-- **rxn_compose_equivariant_partial.** Proved part: reactions whose molecules carry pairwise different numbers inside a
+    side (reagents count to the reactant side) — the domain in which atom numbers are an atom-to-atom mapping; there the
+    renaming of the CGR is `f` itself. Excluded class, exactly: some number occurs in two molecules of one side — then
+    `Graph.union` renumbers the later molecule above `max` of the earlier ones, the fresh numbers can meet (or miss)
+    numbers of the other side, and which of the two happens changes with `f` (witness below). -/
+theorem rxn_compose_equivariant_partial (f : Nat → Nat) (hf : Function.Injective f) (R A P : List Mol)
+    (hdr : DisjointIds (A ++ R)) (hdp : DisjointIds P) :
+    rxnCompose (R.map (rename f)) (A.map (rename f)) (P.map (rename f)) =
+      mapExcept (renameCGR f) (rxnCompose R A P) :=
+  rxnCompose_rename f hf R A P hdr hdp
+
+/-- the full statement fails outside that class: reactants {1,2} and {2,3} (the second is renumbered to 3, 4 by `union`),
+    product {1,2,4}: atom 4 of the product meets the renumbered reactant atom; after `n ↦ 10 n` the reactant block is
+    21, 22 and the product atom 40 meets nothing — 4 atoms in one condensed graph, 5 in the other. Not a defect of the
+    property's domain (a number shared by two molecules of a side is no mapping), hence no finding. -/
+example : ¬ RxnComposeEquivariantFull := by
+  intro h
+  let c : Atom := {z := 6}
+  let R : List Mol := [⟨[(1, c), (2, c)], [(1, []), (2, [])]⟩, ⟨[(2, c), (3, c)], [(2, []), (3, [])]⟩]
+  let P : List Mol := [⟨[(1, c), (2, c), (4, c)], [(1, []), (2, []), (4, [])]⟩]
+  have hf : Function.Injective (fun n : Nat => n * 10) := by intro x y e; simp only at e; omega
+  obtain ⟨g, e⟩ := h (fun n => n * 10) hf R [] P (by decide)
+  have k1 : (rxnCompose (R.map (rename (fun n => n * 10))) ([].map (rename (fun n => n * 10)))
+      (P.map (rename (fun n => n * 10)))).toOption.map (·.atoms.length) = some 5 := by decide
+  have k0 : (rxnCompose R [] P).toOption.map (·.atoms.length) = some 4 := by decide
+  rw [e] at k1
+  cases hr : rxnCompose R [] P with
+  | error _ => rw [hr] at k0; cases k0
+  | ok h0 =>
+    rw [hr] at k0 k1
+    simp [mapExcept, renameCGR, Except.toOption] at k0 k1
+    omega
 
 end ChythonModel.Props.C15
